@@ -288,6 +288,7 @@ def drop_zeroizes(cr, im):
                 src = G.ref_source(body, a0["place"]["local"])
                 if src and src[0] == 1 and src[1]:
                     covered.add(src[1][0])
+                    covered.add(".".join(str(x) for x in src[1]))
     return body, covered
 
 
@@ -298,9 +299,18 @@ def check_zeroize(rep, fb_all):
         has_feature = "zeroize" in cr.j["features"]
         drops = {im.get("self_adt"): im for im in cr.impls if im.get("trait") == "core::ops::Drop"}
         # assoc types that stand for state (CtrFlavor::CtrNonce): the ADTs they are bound to
+        contained = set()
+        for a in cr.adts:
+            for v in a["variants"]:
+                for f in v["fields"]:
+                    ft = cr.types[f["ty"]]
+                    if ft["k"] == "adt" and ft.get("local") and ft["adt"] != a["path"]:
+                        contained.add(ft["adt"])
         for a in cr.adts:
             if a["kind"] != "struct":
                 continue
+            if a["path"] in contained and a["path"] not in drops:
+                continue      # plain nested state struct: its leaves are checked through the containing type
             fields = a["variants"][0]["fields"]
             st_fields = [f for f in fields if is_state_field(cr, f)[0]]
             exempt = [(f["name"], is_state_field(cr, f)[1]) for f in fields if not is_state_field(cr, f)[0]]
@@ -317,6 +327,16 @@ def check_zeroize(rep, fb_all):
             for f in st_fields:
                 ok = f["name"] in covered
                 why = "Zeroize::zeroize(&mut self.%s) on every path of drop" % f["name"]
+                if not ok:
+                    # a nested plain state struct whose every state leaf is wiped by this Drop
+                    ft = cr.types[f["ty"]]
+                    if ft["k"] == "adt" and ft.get("local"):
+                        sub = adt_by_path(cr, ft["adt"])
+                        if sub is not None and sub["kind"] == "struct" and ft["adt"] not in drops:
+                            leaves = [g for g in sub["variants"][0]["fields"] if is_state_field(cr, g)[0]]
+                            if leaves and all(("%s.%s" % (f["name"], g["name"])) in covered for g in leaves):
+                                ok = True
+                                why = "every member of the nested state struct (%s) is zeroized on every path of drop" % ", ".join(g["name"] for g in leaves)
                 if not ok:
                     # field whose own type wipes itself on drop
                     ft = cr.types[f["ty"]]
